@@ -2,6 +2,7 @@ package props
 
 import (
 	"bytes"
+	"compress/flate"
 	"context"
 	"encoding/json"
 	"fmt"
@@ -577,7 +578,12 @@ func TestC08Bombs(t *testing.T) {
 func TestC08Regress(t *testing.T) {
 	for _, mode := range []string{"server/takeover", "client/mode-no-ctx"} {
 		for _, v := range []ref.DeflateVariant{ref.DVSync, ref.DVBFinal} {
-			for _, lim := range []int64{125, c08Default} {
+			lims := []int64{125, c08Default}
+			if v == ref.DVSync {
+				// limits whose decimal form is long: everything said about the limit (error text, Close reason) must still fit
+				lims = append(lims, 10_000_000, 1<<24)
+			}
+			for _, lim := range lims {
 				var cm c03Mode
 				for _, m := range c03Modes {
 					if m.Name == mode {
@@ -585,12 +591,99 @@ func TestC08Regress(t *testing.T) {
 					}
 				}
 				size := int(effLimit(lim)) + 1
-				c := c08Case{Mode: cm, API: "reader", Buf: 70000, Msgs: []c08Msg{{Size: size, Kind: ckText, Compress: true, Variant: v, Frags: 1, SetLimit: lim}}}
+				kind := ckText
+				if lim > 1<<20 {
+					kind = ckZero
+				}
+				c := c08Case{Mode: cm, API: "reader", Buf: 70000, Msgs: []c08Msg{{Size: size, Kind: kind, Compress: true, Variant: v, Frags: 1, SetLimit: lim}}}
 				var msg string
 				synctest.Test(t, func(t *testing.T) { msg, _ = runC08(t, c) })
 				evid.For("C08").Case(true, fmt.Sprintf("regress|D13|%s|%v|%d", mode, v, lim), "regression-replay")
 				if msg != "" {
 					failCase(t, "C08", c.String(), "D13: %s", msg)
+				}
+			}
+		}
+	}
+}
+
+// TestC08MultiStream: a compressed message whose payload is several complete DEFLATE
+// streams (each ending in a BFINAL=1 block) one after the other. What a receiver
+// makes of the data behind the first final block is its own business (RFC 7692 does
+// not define it) - but however it reads the message, the read limit is a limit per
+// MESSAGE: the application is never handed more than that.
+func TestC08MultiStream(t *testing.T) {
+	rec := evid.For("C08")
+	one := make([]byte, 20000)
+	for i := range one {
+		one[i] = byte('a' + i%23)
+	}
+	var stream bytes.Buffer
+	fw, _ := flate.NewWriter(&stream, flate.BestSpeed)
+	fw.Write(one)
+	fw.Close()
+	for _, client := range []bool{false, true} {
+		for _, limit := range []int64{c08Default, 50000} {
+			for _, frags := range []int{1, 4} {
+				for _, k := range []int{2, 4} {
+					desc := fmt.Sprintf("multistream|client=%v|limit=%d|frags=%d|streams=%d", client, limit, frags, k)
+					var msg string
+					synctest.Test(t, func(t *testing.T) {
+						e := newEnv(t)
+						defer e.Teardown()
+						lc, err := e.open(connSpec{Client: client, Mode: websocket.CompressionContextTakeover, Ext: "permessage-deflate"})
+						if err != nil {
+							msg = "handshake: " + err.Error()
+							return
+						}
+						lc.Peer.start(e)
+						if limit != c08Default {
+							lc.C.SetReadLimit(limit)
+						}
+						raw := bytes.Repeat(stream.Bytes(), k)
+						per := len(raw)/frags + 1
+						for j, off := 0, 0; j < frags; j++ {
+							end := min(off+per, len(raw))
+							if j == frags-1 {
+								end = len(raw)
+							}
+							f := ref.Frame{Fin: j == frags-1, Payload: raw[off:end]}
+							if j == 0 {
+								f.Opcode, f.Rsv1 = ref.OpBinary, true
+							}
+							lc.Peer.send(f)
+							off = end
+						}
+						delivered := 0
+						var rerr error
+						d := e.Call(func() {
+							_, r, err := lc.C.Reader(context.Background())
+							if err != nil {
+								rerr = err
+								return
+							}
+							buf := make([]byte, 4096)
+							for {
+								n, err := r.Read(buf)
+								delivered += n
+								if err != nil {
+									rerr = err
+									return
+								}
+							}
+						})
+						if !within(d, 60*time.Second) {
+							msg = "read did not return"
+							return
+						}
+						if lim := effLimit(limit); int64(delivered) > lim+1 {
+							msg = fmt.Sprintf("a message of %d DEFLATE streams (%d bytes each when inflated) handed %d bytes to the application under a read limit of %d (err=%v)", k, len(one), delivered, lim, rerr)
+						}
+					})
+					rec.Case(true, desc, "several-deflate-streams-in-one-message")
+					if msg != "" {
+						failCase(t, "C08", desc, "%s", msg)
+					}
 				}
 			}
 		}
